@@ -10,8 +10,8 @@ commands translated by hand (CollectionsScripts.v).  coq/generated/GenCollection
 table of names, aliases, argument counts and helper calls read from the source; C12_tables ties it to the model.
 
 Correspondence: histories of collection commands are run (a) by the extracted model — M for the native
-commands, the hand translation for the loop-free scripts, array_contains and set_from_array, the S-level
-definitions for the other three scripts with for-in loops, `array_concat` in its as-is form (finding F6) — and (b) by the real SDK in one persistent
+commands, the hand translation (CollectionsScripts.v) for eight of the nine script commands, the S-level
+definition for array_join, `array_concat` in its as-is form (finding F6) — and (b) by the real SDK in one persistent
 Context per history (harness c12: one-line scripts, arguments passed through variables).  After every op the
 outputs are compared; at `dump` ops every collection allocated so far is re-read through the public commands
 (is_array/array_length/array_get, is_map/map_keys/map_get, is_set/set_to_array) and compared together with the
@@ -34,7 +34,8 @@ import vlib
 from vlib import enc_str, dec_str, enc_list, dec_list
 
 THEOREMS = ["C12_tables", "C12_short_args", "C12_refines", "C12_refines_run", "C12_refines_script",
-            "C12_refines_array_contains", "C12_refines_set_from_array", "C12_no_empty_handle", "C12_refines_run_proved", "C12_nopanic", "C12_mismatch", "C12_mismatch_native", "C12_mismatch_release",
+            "C12_refines_array_contains", "C12_refines_set_from_array", "C12_refines_array_concat",
+            "C12_refines_map_contains_value", "C12_no_empty_handle", "C12_refines_run_proved", "C12_nopanic", "C12_mismatch", "C12_mismatch_native", "C12_mismatch_release",
             "C12_mismatch_concat", "C12_release_total", "C12_release", "C12_release_cyclic", "C12_distinct", "C12_frame",
             "C12_verbatim_array", "C12_verbatim_map", "C12_verbatim_set", "C12_parse_dec", "C12_verbatim_array_dec",
             "C12_keys_perm", "C12_members_perm", "C12_array_contains_least", "C12_array_contains_none",
@@ -510,7 +511,7 @@ def run(ck):
     load_aliases()
     ck.coq_build(["props/C12.vo", "extract/C12_extract.vo"])
     ck.print_assumptions(["DSP.C12"], ["DSP.C12." + t for t in THEOREMS])
-    own_hygiene(ck)
+    ck.hygiene()
     ck.ocaml_build()
     ck.harness_build(["c12"])
     model_ok = not any(b.startswith("ocaml") for b in ck.broken) and os.path.exists(
@@ -645,7 +646,12 @@ def run(ck):
                             ("F7", "array_join leaves a trailing separator for separators such as '#' (eval re-serialisation in "
                                    "`if not is_empty ${sep}`); witness: array_join [a,b,c] '#' = 'a#b#c#'")):
             if stats[tag]:
-                ck.known(text)
+                if any(k.get("id") == tag for k in ck.open_findings()):
+                    ck.known(tag + " " + text)
+                else:
+                    found = True
+                    ck.violation({"kind": "behaviour of finding class %s observed, but known_findings.json does not list it as an open finding of C12" % tag,
+                                  "class": tag, "what": text, "count": stats[tag], "seed": ck.seed})
         ck.coverage.update({
             "evaluations": len(hist),
             "distinct_nontrivial": len(nontriv),
@@ -664,10 +670,10 @@ def run(ck):
             "status": stats,
             "samples": [[show_op(o) for o in hist[0][1]], [show_op(o) for o in hist[min(n_corpus + 5, len(hist) - 1)][1]],
                         [show_op(o) for o in hist[-1][1][:12]]],
-            "partial": "three script-implemented commands with for-in loops (array_concat, array_join, map_contains_value) have "
-                       "specification-level definitions only and are tied to the code by this run, not by a refinement proof; the "
-                       "four loop-free ones (array_is_empty, map_is_empty, set_is_empty, map_contains_key), array_contains and "
-                       "set_from_array are hand-translated compositions of the native models, proved against the specification",
+            "partial": "array_join (script-implemented, builds its result with strlen / calc / substring) has a specification-level "
+                       "definition only and is tied to the code by this run, not by a refinement proof; the other eight script "
+                       "commands are hand-translated compositions of the native models (for-in as repeated re-reading of the live "
+                       "list), proved against the specification; the for-in call stack (F6) and eval re-serialisation (F7) are not modelled",
         })
     else:
         ck.coverage.update({"evaluations": 0, "distinct_nontrivial": 0, "rule": "model did not build", "samples": []})
